@@ -78,7 +78,7 @@ def rt_job(info, cn, nmax, prop='C01', extra_assume=None, suffix='', only_scen=N
     if only_scen is not None: suffix = '_v%d%s' % (only_scen, suffix)
     return core.Job('%s_%s_roundtrip%s' % (prop, cn, suffix), src, route='harness', unwind=max(cap, 600) + 2,
                     functions=['%s::write' % cn, '%s::read' % cn], canary_ids=['harness.assertion.1'],
-                    timeout=900, flags=bc.FLAGS + ['--max-field-sensitivity-array-size', '4096'],
+                    timeout=300, flags=bc.FLAGS + ["--max-field-sensitivity-array-size", "4096"],
                     bounded=(('container sizes enumerated over %s (concrete); ' % (svs,) if vecs else '') +
                              ('layout selectors enumerated over %s; ' % scen if sel_paths else '') +
                              'contents and every other scalar symbolic at full width') if (vecs or sel_paths) else None)
